@@ -250,7 +250,15 @@ def run(ctx, explain=False):
         raise tlc.TLCFailure("SessionSpec produced no sessions")
     nsess = ctx.pick(40, 400)
     rng = random.Random(ctx.seed * 65537 + 20)
-    recipes = gen + [session(rng, ctx.pick(6000, 12000), ctx.pick(1.2e9, 4e9)) for _ in range(nsess)]
+    sessions = [session(rng, ctx.pick(6000, 12000), ctx.pick(1.2e9, 4e9)) for _ in range(nsess)]
+    # windows that start at the first point: the net properties are checked on the returned numbers
+    for i in range(ctx.pick(6, 40)):
+        D = [1, 2, 3, 8, 40, 1000][i] if i < 6 else rng.randint(1, 1000)
+        npts = 256 if D <= 40 else max(2, min(256, ctx.pick(6000, 12000) // D))
+        calls = [["batch", "sobol", 1, npts, D], ["front", "sobol", npts, D, 1]]
+        rng.shuffle(calls)
+        sessions.append({"calls": calls, "source": "first-points"})
+    recipes = sessions[:2] + gen + sessions[2:]
     traces = pool_map(drive, recipes, chunksize=1)
     maxd = 1
     for r in recipes:
@@ -260,12 +268,14 @@ def run(ctx, explain=False):
     poly = table_rows(range(1, min(maxd, 1000) + 1))
     ctx.validate("trace/Trace_QuasiRandom.tla", traces, consts="  Bits = %d\n" % BITS,
                  extra_data={"poly": poly}, batch=ctx.pick(None, 1500), timeout=1500)
+    if ctx.ood:
+        raise tlc.TLCFailure("constructed sessions were judged out of domain by TLC (%d): harness bug" % ctx.ood)
     ctx.exhaustive = not ctx.quick
     ctx.rule = ("Sobol generator run by TLC on the tree's direction numbers: %d dimensions x first 2^%d points "
                 "(Stratified every m, Net2 on coordinates 1,2); %d TLC-enumerated ordered pairs of calls and %d seeded "
                 "sessions (window [s,s+k], s<=10^6, k<=256, all routes shuffled) replayed through chmpy.sampling; "
                 "non-trivial = some (method, dimension) observed by more than one route"
-                % (len(dims), maxm, len(gen), nsess))
+                % (len(dims), maxm, len(gen), len(sessions)))
     ctx.explanation = ("stratification / net property: %s; batch = single = front end and call-order "
                        "independence: exhaustive over ordered pairs of the small call alphabet, sampled windows beyond"
                        % ("exhaustive over dimensions 1..1000 x m <= 12" if not ctx.quick else
